@@ -12,7 +12,7 @@ EXPLANATION = ("Liveness over all schedules is not statically decidable; these a
                "always leaves something ack-eliciting queued; (h) the Pacing timer is armed on the only pacing-blocked exit, MaxAckDelay whenever packet_received asks for it; "
                "(i) the pacer only moves its reference time forward when tokens were generated; (j) every function that changes the state read by Send::is_pending "
                "(write, finish, retransmit, retransmit_all_for_0rtt, write_stream_frames) keeps `is_pending() => queued in StreamsState.pending`: the is_pending() sample deciding "
-               "the push is taken before the change (enqueue-if-absent) resp. after it (requeue of a popped stream) and its deciding edge always reaches the push. Completion within bounded time is NOT decided.")
+               "the push is taken before the change (enqueue-if-absent) resp. after it (requeue of a popped stream) and its deciding edge always reaches the push; (k) every slot of PendingStreamsQueue that pop() yields from is enumerated, whole range, by the iter() view on which can_send_stream_data decides whether a packet is built; (l) a datagram that consumes a loss probe is allotted min(.., INITIAL_MTU) and a packet is padded to a run-time size only under `datagram_start + size <= buf_capacity` (probes must fit the minimum MTU to recover from a path-MTU reduction). Completion within bounded time is NOT decided.")
 RULE = "rule instances = (rule, site) pairs over MIR call sites / branches / constant tables; non-trivial = bound to a real site"
 
 
@@ -692,6 +692,218 @@ def rule_j(ctx):
     ctx.floor('j', 'pending_state_change_functions', nfn, 5)
 
 
+# --------------------------------------------------------------------------
+# (k) every stream the transmit path can pop from the pending-streams queue is seen by the "anything to send?" decision
+# --------------------------------------------------------------------------
+
+_WHOLE_RANGE = _ITER_VIEWS + ('as_ref', 'as_slice', 'as_deref')
+_WHOLE_CONSUMERS = _WHOLE_RANGE + ('any', 'all', 'find', 'find_map', 'filter', 'filter_map', 'map', 'position', 'count', 'fold', 'try_fold',
+                                   'for_each', 'peekable', 'next', 'is_some', 'is_none', 'flat_map', 'flatten', 'inspect')
+
+
+def _last(path):
+    return path.rsplit('::', 1)[-1]
+
+
+def _peel_whole(d):
+    """strip calls that present ALL elements of a collection / option (iter, into_iter, as_ref, cloned, ..)"""
+    while isinstance(d, tuple) and d and d[0] == 'call' and len(d[3]) == 1 and _last(d[1]) in _WHOLE_RANGE:
+        d = d[3][0]
+    return d
+
+
+def _whole_view_of_site(d, site):
+    """d is the value of call `site`, possibly behind whole-range views (into_iter, by_ref, ..)"""
+    while True:
+        if is_site(d, site):
+            return True
+        if not (isinstance(d, tuple) and d and d[0] == 'call' and len(d[3]) == 1 and _last(d[1]) in _WHOLE_RANGE):
+            return False
+        d = d[3][0]
+
+
+def _chain_leaves(d):
+    """collections enumerated by an iterator expression built from `a.chain(b)` and whole-collection views:
+    list of leaf descriptors (a leaf that is not `self.<field>` is returned as it is: the caller rejects it)"""
+    d = _peel_whole(d)
+    if isinstance(d, tuple) and d and d[0] == 'call' and _last(d[1]) == 'chain' and len(d[3]) == 2:
+        return _chain_leaves(d[3][0]) + _chain_leaves(d[3][1])
+    return [d]
+
+
+def _self_field(d):
+    return d[2] if isinstance(d, tuple) and len(d) == 3 and d[0] == 'field' and isinstance(d[1], tuple) and d[1] and d[1][0] == 'param' else None
+
+
+def _site_consumed_whole(d, site):
+    """the descriptor d contains call `site` and every call between the root of d and the site that takes the site's
+    value as its receiver is a whole-range consumer (no skip / take / step_by / nth / rev().take ..)"""
+    if is_site(d, site):
+        return True
+    if not (isinstance(d, tuple) and d):
+        return False
+    if d[0] == 'call':
+        if d[3] and contains_site(d[3][0], site):
+            return _last(d[1]) in _WHOLE_CONSUMERS and _site_consumed_whole(d[3][0], site)
+        return False
+    if d[0] == 'phi':
+        alts = [x for x in d[1] if contains_site(x, site)]
+        return bool(alts) and all(_site_consumed_whole(x, site) for x in alts)
+    subs = [y for y in d[1:] if isinstance(y, tuple) and y and isinstance(y[0], str) and contains_site(y, site)]
+    return len(subs) == 1 and _site_consumed_whole(subs[0], site)
+
+
+def rule_k(ctx):
+    """write_stream_frames takes streams from PendingStreamsQueue::pop; poll_transmit only builds a packet for stream data
+    when StreamsState::can_send_stream_data (through PendingStreamsQueue::iter) finds a queued stream.  A slot of the queue
+    that pop() yields from but the view does not enumerate holds streams that are never transmitted once they are the only
+    thing left to send (no packet -> no ack -> no timer -> no event)."""
+    import re
+    F = ctx.facts
+    q = F.adt('streams::PendingStreamsQueue')
+    pop = ctx.pfn('PendingStreamsQueue::pop')
+    it = ctx.pfn('PendingStreamsQueue::iter')
+    # the element type is what pop() yields; a slot is a field of the queue that can hold one
+    m = re.search(r'Option<(.+)>\s*$', pop.locals[0][0])
+    elem = m.group(1).rsplit('::', 1)[-1] if m else None
+    slots = [f[0] for f in q['variants'][0]['fields'] if elem and re.search(r'\b%s\b' % re.escape(elem), f[1])]
+    ctx.floor('k', 'queue_slots', len(slots), 1)
+    # (1) pop can yield from every slot
+    taken = set()
+    for b in F.family(pop):
+        for c in b.calls():
+            for i in range(len(c.args)):
+                for x in walk(arg_desc(F, c, i)):
+                    if _self_field(x) in slots:
+                        taken.add(x[2])
+                    if x[0] == 'upvar':
+                        taken |= {f for f in slots if x[1].endswith('.' + f)}
+    ctx.check(set(slots) <= taken, 'k', 'pop_yields_from_every_slot', pop, pop.where(), 'pop() takes from %s' % sorted(taken),
+              'PendingStreamsQueue::pop never yields a stream held in slot(s) %s: a stream parked there is never transmitted' % sorted(set(slots) - taken))
+    # (2) the read-only view enumerates every slot completely
+    rets = [d for r, d in ret_descs(F, it)]
+    seen, opaque = None, []
+    for d in rets:
+        ls = _chain_leaves(d)
+        fs = {_self_field(x) for x in ls} - {None}
+        opaque += [D.render(x)[:80] for x in ls if _self_field(x) not in slots]
+        seen = fs if seen is None else (seen & fs)
+    missing = sorted(set(slots) - (seen or set()))
+    ctx.check(bool(rets) and not missing and not opaque, 'k', 'view_enumerates_every_slot', it, it.where(), 'iter() = whole-range chain over %s' % sorted(seen or ()),
+              'PendingStreamsQueue::iter does not enumerate every stream pop() can yield (slot(s) not enumerated: %s%s): can_send_stream_data() reports nothing to send '
+              'while such a stream is the only one left, so no packet is ever built for it' % (missing, '; not a whole-range view of a slot: %s' % opaque if opaque else ''))
+    # (3) the send decision is taken over that view of StreamsState's queue, whole range
+    cs = ctx.pfn('StreamsState::can_send_stream_data')
+    st = F.adt('streams::state::StreamsState')
+    qf = [f[0] for f in st['variants'][0]['fields'] if re.search(r'\bPendingStreamsQueue\b', f[1])]
+    sites = [c for c in cs.calls_to('PendingStreamsQueue::iter') if _self_field(_peel_whole(arg_desc(F, c, 0))) in qf]
+    rets = [d for r, d in ret_descs(F, cs)]
+    ok = bool(sites) and bool(rets)
+    for c in sites:
+        direct = all(_site_consumed_whole(d, c) for d in rets)
+        looped = any(_last(short(n.f)) == 'next' and len(n.args) == 1 and _whole_view_of_site(arg_desc(F, n, 0), c) for n in cs.calls())
+        if not (direct or looped):
+            ok = False
+    ctx.check(ok, 'k', 'send_decision_examines_whole_queue', cs, cs.where(), 'self.pending.iter().any(..)',
+              'can_send_stream_data no longer examines every element of PendingStreamsQueue::iter() of the pending-streams queue (range-limiting adaptor, or a different view)')
+
+
+# --------------------------------------------------------------------------
+# (l) a datagram that consumes a loss probe stays within the minimum MTU
+# --------------------------------------------------------------------------
+
+def _is_sum_of(d, a, b):
+    return isinstance(d, tuple) and d[0] == 'bin' and d[1] == 'Add' and ((d[2] == a and d[3] == b) or (d[2] == b and d[3] == a))
+
+
+def _is_diff_of(d, a, b):
+    return isinstance(d, tuple) and ((d[0] == 'bin' and d[1] == 'Sub' and d[2] == a and d[3] == b) or
+                                     (d[0] == 'call' and _last(d[1]) in ('saturating_sub', 'wrapping_sub') and len(d[3]) == 2 and d[3][0] == a and d[3][1] == b))
+
+
+def rule_l(ctx):
+    """PTO probes are what lets the sender notice that the path MTU shrank (their ack declares the large packets lost, which
+    drives black-hole detection).  They only get through if they fit the minimum MTU: the datagram that consumes a loss probe
+    is allotted min(.., INITIAL_MTU) bytes, and a packet is padded to a run-time size S only where its datagram was allotted
+    at least S (start + S <= capacity).  Otherwise every probe is dropped as well and the connection never recovers."""
+    F = ctx.facts
+    pt = ctx.pfn('Connection::poll_transmit')
+    dn = describer(F, pt, stop_named=True)
+    pb = ctx.pfn('PacketBuilder::new')
+    names = [nm for ty, nm in pb.locals]
+    try:
+        i_cap, i_start = names.index('buffer_capacity') - 1, names.index('datagram_start') - 1
+    except ValueError:
+        raise CheckBroken('PacketBuilder::new has no buffer_capacity / datagram_start parameter')
+    news = pt.calls_to('PacketBuilder::new')
+    built = [(c, dn.operand(c.args[i_cap], c.bb, term_idx(pt, c.bb)), dn.operand(c.args[i_start], c.bb, term_idx(pt, c.bb))) for c in news]
+    ctx.floor('l', 'packet_builder_sites', len(built), 1)
+    # ---- allotment: capacity increments after a loss probe was consumed are clamped to INITIAL_MTU
+    dec = [w for w in field_writes(F, 'PacketSpace', 'loss_probes', crate='quinn_proto') if w.body.id == pt.id and w.kind == 'assign']
+    caps = {cap[1] for c, cap, start in built if cap[0] == 'local'}
+    incs = []        # (block, increment descriptor)
+    for i, j, pl, rv, line in pt.assigns():
+        if pl[0] in caps and not pl[1]:
+            x = dn.rvalue(rv, i, j, 0)
+            if x[0] == 'bin' and x[1] == 'Add':
+                me = [y for y in (x[2], x[3]) if y[0] == 'local' and y[1] == pl[0]]
+                if me:
+                    incs.append((i, x[3] if x[2] == me[0] else x[2]))
+    inc_bbs = {i for i, v in incs}
+    def clamped(v):
+        if v[0] == 'call' and _last(v[1]) == 'min' and len(v[3]) == 2:
+            return any(_is_named_const(x, 'INITIAL_MTU') for x in v[3])
+        return False
+
+    after_probe = set()
+    for w in dec:
+        after_probe |= pt.reachable_from([w.bb], avoid=inc_bbs) | (inc_bbs & pt.reachable_from([w.bb]))
+    bad, nclamped = [], 0
+    for bb, v in incs:
+        if v[0] == 'local':
+            defs = []
+            for df in pt.defs_of(v[1]):
+                if df[0] == 'stmt':
+                    defs.append((df[1], dn.rvalue(df[3], df[1], df[2], 0)))
+                elif df[0] == 'call':
+                    defs.append((df[1], dn.call_desc(df[2], 0)))
+                else:
+                    defs.append((None, ('?',)))
+        else:
+            defs = [(None, x) for x in _flat_all(v)]
+        for db, x in defs:
+            if clamped(x):
+                nclamped += db is None or any(db in pt.reachable_from([w.bb], avoid=inc_bbs) for w in dec)
+            elif db is None or any(db in pt.reachable_from([w.bb], avoid=inc_bbs) for w in dec):
+                bad.append(D.render(x)[:60])
+    ctx.check(bool(dec) and bool(incs) and nclamped > 0 and not bad, 'l', 'loss_probe_datagram_allotment_clamped', pt, pt.where(),
+              'after loss_probes -= 1 the datagram capacity grows by min(.., INITIAL_MTU)',
+              'a datagram that consumes a loss probe is allotted %s instead of min(.., INITIAL_MTU): after a path-MTU reduction no probe gets through' % (bad or 'nothing recognisable'))
+    # ---- padding: never beyond the allotment
+    floor_mtu = F.const_int('quinn_proto::INITIAL_MTU')
+    n = 0
+    for c in pt.calls_to('PacketBuilder::pad_to'):
+        n += 1
+        a = dn.operand(c.args[1], c.bb, term_idx(pt, c.bb))
+        if a[0] == 'const' and a[1] == 'int':
+            ctx.check(int(a[2]) <= floor_mtu, 'l', 'padding_within_datagram_allotment', pt, c.where(), 'constant %s <= INITIAL_MTU' % a[2],
+                      'pad_to(%s) exceeds INITIAL_MTU' % a[2])
+            continue
+        # the builder was allotted exactly the padded size (MTU probe: capacity = probe size, start = 0; not a loss probe)
+        recv, full = arg_desc(F, c, 0), arg_desc(F, c, 1)
+        own = [s for s in news if contains_site(recv, s)]
+        if len(own) == 1 and arg_desc(F, own[0], i_cap) == full and arg_desc(F, own[0], i_start) == ('const', 'int', '0', ''):
+            ctx.ok('l', 'padding_within_datagram_allotment', pt, c.where(), 'builder allotted exactly the padded size')
+            continue
+        # otherwise: dominated by `start + S <= capacity` of a builder of this function, unreachable from its violating edge
+        es = guard_edges(ctx, pt, lambda o, x, y: o == 'Lt' and any((x == cap and _is_sum_of(y, start, a)) or (_is_diff_of(x, cap, start) and y == a) for s, cap, start in built), stop_named=True)
+        cov = any(pt.dominates(br.bb, c.bb) and c.bb not in pt.reachable_from([tgt], avoid=[br.bb]) for br, truth, tgt in es if tgt is not None)
+        ctx.check(cov, 'l', 'padding_within_datagram_allotment', pt, c.where(), 'pad_to(%s) only where datagram_start + size <= buf_capacity' % D.render(a)[:40],
+                  'a packet is padded to the run-time size %s although its datagram may have been allotted less (no dominating `start + size <= capacity` test on the '
+                  'values handed to PacketBuilder::new): a loss probe clamped to INITIAL_MTU is padded back to the full segment size and is dropped on a path whose MTU shrank' % D.render(a)[:40])
+    ctx.floor('l', 'pad_to_sites', n, 3)
+
+
 def run(ctx):
     rule_a(ctx)
     rule_b(ctx)
@@ -703,3 +915,5 @@ def run(ctx):
     rule_h(ctx)
     rule_i(ctx)
     rule_j(ctx)
+    rule_k(ctx)
+    rule_l(ctx)
